@@ -26,7 +26,7 @@ func (impl Implementation) Dlantb(norm lapack.MatrixNorm, uplo blas.Uplo, diag b
 	case n < 0:
 		panic(nLT0)
 	case k < 0:
-		panic(kdLT0)
+		panic(kLT0)
 	case lda < k+1:
 		panic(badLdA)
 	}
@@ -38,7 +38,7 @@ func (impl Implementation) Dlantb(norm lapack.MatrixNorm, uplo blas.Uplo, diag b
 
 	switch {
 	case len(a) < (n-1)*lda+k+1:
-		panic(shortAB)
+		panic(shortA)
 	case len(work) < n && norm == lapack.MaxColumnSum:
 		panic(shortWork)
 	}
